@@ -103,6 +103,10 @@ ASSIGN = {"listanynested": [[3]], "unionany": [3], "unionanydict": {"b": 2}, "ma
           "dictlist": {"q": [3]}, "listlist": [[3]]}
 
 
+def _noop_handler():
+    pass
+
+
 def plain(v):
     if isinstance(v, Foo):
         return "foo:%d" % v.z
@@ -241,6 +245,9 @@ def run(case, ctx):
         o = cls()
         o.__dict__["_serial"] = serial[0]
         serial[0] += 1
+        for n_, k_ in zip(names, kinds):
+            if k_ == "mapdyn":
+                o.on_trait_change(_noop_handler, n_ + "_")          # a listener on the shadow attribute, before any use
         insts.append(o)
         models.append({"cls": cls, "vals": {}, "read": set(), "extra": set()})
     new(False)
@@ -445,7 +452,12 @@ def run(case, ctx):
                 val = ASSIGN[kind]
                 if kind == "inst":
                     val = Foo(z=5)
-                old_plain = plain(getattr(o, nm))
+                # (half of the assignments are made WITHOUT reading the attribute first: the trait then has to compute the
+                #  default itself, as the old value of the change)
+                unread = nm not in m["vals"] and op[2] % 2 == 1
+                old_plain = plain(expected(j, nm)) if unread else plain(getattr(o, nm))
+                if unread:
+                    ctx.label("assigned-before-first-read")
                 del log[:]
                 setattr(o, nm, copy.deepcopy(val) if kind != "inst" else val)
                 m["vals"][nm] = plain(getattr(o, nm))
